@@ -31,7 +31,7 @@ ASSUMPTIONS = ["payoff value tolerance 4*eps*(|S|+|K|) (one rounded subtraction 
                "working dtype is counted as ambiguous_skipped, not judged",
                "the functional:* operations are plain value generation and are labelled so"]
 PROBES = ["tie_terminal", "tie_extreme", "pinned", "clause_chain2", "T1", "T2", "forward_start_nonzero", "variance_swap",
-          "relations", "after_cast", "after_resim", "clause_added_midway", "put_uses_min", "functional"]
+          "relations", "after_cast", "after_resim", "clause_added_midway", "put_uses_min", "functional", "strike_changed_on_live_objects", "maturity_not_multiple_of_dt"]
 DYADIC = [0.5, 0.75, 1.0, 1.0, 1.03125, 1.25]
 
 
@@ -45,6 +45,8 @@ def generate(rng):
     if prim["kind"] == "RoughBergomiStock" and steps == 0:
         steps = 1  # generate_rough_bergomi cannot produce a single time point (see C11)
     M = steps * dt
+    if steps >= 1 and rng.chance(0.3):
+        M = (steps - rng.choice([0.5, 0.25, 0.75])) * dt   # not a multiple of dt: the grid has `steps`+1 points and overshoots M
     derivs = []
     fam = [("EuropeanOption", True), ("EuropeanOption", False), ("LookbackOption", True), ("LookbackOption", False),
            ("EuropeanBinaryOption", True), ("EuropeanBinaryOption", False), ("AmericanBinaryOption", True),
@@ -77,7 +79,11 @@ def generate(rng):
     ops = [{"op": "simulate", "target": rng.choice(ids), "n_paths": n, "torch_seed": rng.seed31()}]
     ncl = 100
     for _ in range(rng.randint(3, 13)):
-        k = rng.wchoice([("check", 6), ("relations", 2), ("pin", 3), ("add_clause", 1), ("cast", 1), ("simulate", 1), ("functional", 1)])
+        k = rng.wchoice([("check", 6), ("relations", 2), ("pin", 3), ("add_clause", 1), ("cast", 1), ("simulate", 1), ("functional", 1),
+                         ("set_strike", 1)])
+        if k == "set_strike":
+            ops.append({"op": "set_strike", "strike": rng.choice(DYADIC + [0.9, 1.1])})
+            continue
         if k == "check":
             ops.append({"op": "check", "derivative": rng.choice(ids)})
         elif k == "relations":
@@ -260,6 +266,14 @@ def _execute(program, stats, hist):
                 stats.fault("F10_aliasing_resimulate")
             stats.market_years += op["n_paths"] * d.maturity
             hist.add(op="simulate", spot=thash(p0.spot))
+        elif name == "set_strike":
+            # the whole family is re-struck (attribute assignment on live objects); contracts follow the current attribute
+            for did, dd in world.derivatives.items():
+                if dspec[did]["kind"] != "VarianceSwap" and dspec[did]["kind"] != "EuropeanForwardStartOption":
+                    dd.strike = op["strike"]
+                    dspec[did] = dict(dspec[did], params=dict(dspec[did]["params"], strike=op["strike"]))
+            stats.probe("strike_changed_on_live_objects")
+            hist.add(op="set_strike", strike=op["strike"])
         elif name == "cast":
             p0.to(DT[op["dtype"]])
             after_cast = True
@@ -319,6 +333,8 @@ def _execute(program, stats, hist):
             if len(clauses[did]) >= 2:
                 stats.probe("clause_chain2")
                 tags_all.add("clause_chain2")
+            if abs(float(d.maturity) / float(p0.dt) - round(float(d.maturity) / float(p0.dt))) > 1e-6:
+                stats.probe("maturity_not_multiple_of_dt")
             if T <= 2:
                 stats.probe("T%d" % T)
                 tags_all.add("T%d" % T)
